@@ -1,6 +1,6 @@
 CONSTANTS EP = {"e1", "e2"}  Models = {"ma"}  Ask = {"ma", "mz"}  Kinds = {"ollama", "vllm"}
-          Routes = {"proxy", "ollama", "anthropic"}  MaxLen = 0
+          Routes = {"proxy", "ollama", "anthropic"}  Ops = {"up", "relist", "health", "req", "list"}  MaxLen = 0
 SPECIFICATION Spec
 VIEW View
-INVARIANTS TypeOK ServedByCandidate CandsSound RefusedIsOut NeverListedNeverServed TopTierFirst
+INVARIANTS TypeOK ServedByCandidate CandsSound RefusedIsOut NeverListedNeverServed TopTierFirst OpenIsOut
 CHECK_DEADLOCK FALSE
